@@ -684,6 +684,29 @@ func (vc *VC) applyCall(ci *callInfo) []string {
 			res = append(res, c)
 		}
 	}
+	if fc != nil && fc.Deterministic && ci.sig != nil {
+		var sorts, args []string
+		for _, a := range ci.args {
+			if a.isBool() {
+				sorts = append(sorts, "Bool")
+			} else {
+				sorts = append(sorts, "Int")
+			}
+			args = append(args, a.term)
+		}
+		for i, r := range res {
+			f := vc.declareFun(fmt.Sprintf("det!%s!%d", shortName(ci.name), i), sorts, sortOf(ci.sig.Results().At(i).Type()))
+			t := f
+			if len(args) > 0 {
+				t = fmt.Sprintf("(%s %s)", f, strings.Join(args, " "))
+			}
+			g := fmt.Sprintf("(= %s %s)", r, t)
+			if ci.guard != "" {
+				g = fmt.Sprintf("(=> %s %s)", ci.guard, g)
+			}
+			vc.assume(g)
+		}
+	}
 	if ci.name == "errors.As" || ci.name == vc.P.ModPath+"/errors.As" {
 		vc.errorsAsFacts(ci, res)
 	}
